@@ -1355,3 +1355,99 @@ Proof.
     + split; [reflexivity | exact TC].
     + rewrite NC, NC'. split; [reflexivity|]. destruct c; try discriminate NC; destruct c'; try discriminate NC'; exact TC.
 Qed.
+
+(* ------------------------------------------------------------------ *)
+(* F. a depth measure: atoms 0; TList/TDict/TObj +1; TUnion/TOpt +0                                     *)
+Fixpoint depth (t : ty) : nat :=
+  match t with
+  | TOpt x => depth x
+  | TList x | TDict x => Datatypes.S (depth x)
+  | TUnion ts => (fix go l := match l with [] => 0 | x :: r => Nat.max (depth x) (go r) end) ts
+  | TObj fs => Datatypes.S ((fix go (l : fields) := match l with [] => 0 | (_, x) :: r => Nat.max (depth x) (go r) end) fs)
+  | _ => 0
+  end.
+Definition dle (n : nat) (l : list ty) : Prop := forall x, In x l -> depth x <= n.
+Lemma depth_union_le ts n : depth (TUnion ts) <= n <-> dle n ts.
+Proof.
+  unfold dle. simpl. induction ts as [|x r IH]; simpl.
+  - split; [intros _ y [] | lia].
+  - rewrite Nat.max_lub_iff, IH. split.
+    + intros [A B] y [<-|Hy]; auto.
+    + intros H. split; [apply H; left; reflexivity | intros y Hy; apply H; right; exact Hy].
+Qed.
+Lemma depth_obj_le fs n : depth (TObj fs) <= Datatypes.S n <-> forall kv, In kv fs -> depth (snd kv) <= n.
+Proof.
+  simpl. rewrite <- Nat.succ_le_mono. induction fs as [|[k x] r IH]; simpl.
+  - split; [intros _ y [] | lia].
+  - rewrite Nat.max_lub_iff, IH. split.
+    + intros [A B] y [<-|Hy]; auto.
+    + intros H. split; [apply (H (k, x)); left; reflexivity | intros y Hy; apply H; right; exact Hy].
+Qed.
+Lemma depth_obj_pos fs : 1 <= depth (TObj fs).
+Proof. simpl. lia. Qed.
+Lemma depth_member ts x : In x ts -> depth x <= depth (TUnion ts).
+Proof. intros H. apply (proj1 (depth_union_le ts (depth (TUnion ts))) (le_n _) x H). Qed.
+Lemma depth_field fs k v : In (k, v) fs -> depth v < depth (TObj fs).
+Proof.
+  intros H. destruct (depth (TObj fs)) as [|n] eqn:E; [pose proof (depth_obj_pos fs); lia|].
+  pose proof (proj1 (depth_obj_le fs n) ltac:(rewrite E; lia) (k, v) H) as L. simpl in L. lia.
+Qed.
+Lemma depth_flat : forall t x, In x (flat t) -> depth x <= depth t.
+Proof.
+  induction t using ty_ind2; intros x Hx; try (destruct Hx as [<-|[]]; apply le_n).
+  change (flat (TUnion ts)) with (flatten_union ts) in Hx.
+  induction H as [|y r Hy Hr IH]; [destruct Hx|]. rewrite flatten_cons in Hx. apply in_app_iff in Hx.
+  assert (E : depth (TUnion (y :: r)) = Nat.max (depth y) (depth (TUnion r))) by reflexivity. rewrite E.
+  destruct Hx as [Hx|Hx]; [specialize (Hy x Hx); lia | specialize (IH Hx); lia].
+Qed.
+Lemma dle_flatten n ts : dle n ts -> dle n (flatten_union ts).
+Proof.
+  intros H x Hx. change (flatten_union ts) with (flat (TUnion ts)) in Hx. apply depth_flat in Hx.
+  apply (Nat.le_trans _ _ _ Hx). apply depth_union_le. exact H.
+Qed.
+Lemma dle_mk_union n ts : dle n ts -> dle n (mk_union ts).
+Proof.
+  intros H x Hx. apply mk_union_In in Hx. destruct Hx as [[Hx _]|[->|[-> _]]]; [apply (dle_flatten n ts H x Hx) | simpl; lia | simpl; lia].
+Qed.
+Lemma depth_union1 n ts : dle n ts -> depth (union1 ts) <= n.
+Proof.
+  intros H. pose proof (dle_mk_union n ts H) as M. unfold union1. destruct (mk_union ts) as [|x [|y r]] eqn:E.
+  - simpl. lia.
+  - apply M. left. reflexivity.
+  - apply depth_union_le. exact M.
+Qed.
+Lemma depth_dunion n ts : dle n ts -> depth (dunion ts) <= n.
+Proof. intros H. unfold dunion. apply depth_union_le. apply dle_mk_union. exact H. Qed.
+Lemma dle_members t : dle (depth t) (members t).
+Proof. destruct t; simpl; try (intros x [<-|[]]; apply le_n). intros x Hx. apply depth_member. exact Hx. Qed.
+Lemma dle_nmem t : dle (depth t) (nmem t).
+Proof. unfold nmem. apply dle_mk_union. intros x [<-|[]]. apply le_n. Qed.
+Lemma dle_app n a b : dle n a -> dle n b -> dle n (a ++ b).
+Proof. intros A B x Hx. apply in_app_iff in Hx. destruct Hx; auto. Qed.
+Lemma dle_mono n m l : n <= m -> dle n l -> dle m l.
+Proof. intros L H x Hx. specialize (H x Hx). lia. Qed.
+
+Lemma depth_jn0 peq n c t : depth c <= n -> depth t <= n -> depth (jn0 peq c t) <= n.
+Proof.
+  intros A B. unfold jn0. destruct (py_eq peq c t); [exact A|]. apply depth_union1.
+  apply dle_app; [eapply dle_mono; [exact B | apply dle_members] | eapply dle_mono; [exact A | apply dle_members]].
+Qed.
+Lemma depth_fold_jn0 peq n : forall r a, depth a <= n -> dle n r -> depth (fold_left (jn0 peq) r a) <= n.
+Proof.
+  induction r as [|t r IH]; intros a A B; [exact A|]. cbn [fold_left]. apply IH.
+  - apply depth_jn0; [exact A | apply B; left; reflexivity].
+  - intros x Hx. apply B. right. exact Hx.
+Qed.
+Theorem merge_depth peq n sets k v : good_sets_R sets ->
+  (forall s kv, In s sets -> In kv s -> depth (snd kv) <= n) ->
+  lookup k (merge_field_sets peq sets) = Some v -> depth v <= n.
+Proof.
+  intros Hg Hd. rewrite (merge_lookup_spec peq k sets Hg).
+  destruct (tys_of k sets) as [|a r] eqn:E; [discriminate|]. cbn [fold_jn]. intros H. inversion H; subst v.
+  assert (D : dle n (a :: r)).
+  { intros t Ht. rewrite <- E in Ht. apply tys_of_In in Ht. destruct Ht as [s [Hs L]].
+    apply (Hd s (k, t) Hs). apply Sound.lookup_In. exact L. }
+  assert (C : depth (fold_left (jn0 peq) r a) <= n).
+  { apply depth_fold_jn0; [apply D; left; reflexivity | intros x Hx; apply D; right; exact Hx]. }
+  destruct (miss k sets); exact C.
+Qed.
